@@ -9,10 +9,18 @@ Sub-checks (case kinds):
           (`Lexer.input`, `Lexer.token`) waits for its turn according to the schedule; compared with the Lean
           interleaving model (`interleave.run owned …`)
   stress  (c) free-running threads with a 1 µs switch interval
+  sheet   (a)+(c) a spreadsheet-style host on long-lived parsers: cells hold formulas, the callCellValue listener
+          resolves a cell by evaluating its formula re-entrantly and hands the inner RESULT (blank, 0, FALSE, text,
+          an error) to the setter; the callRangeValue listener walks the coordinates of the Cell objects it was
+          given progressively and resolves every cell the same way, so that complete evaluations (nested on the same /
+          another parser, or in another thread) run between two uses of the objects it holds; compared with an
+          independent bottom-up reference in which no evaluation is nested in another one
 """
 import itertools
+import json
 import math
 import random as _random
+import re
 import sys
 import threading
 import time
@@ -46,8 +54,31 @@ RULE = ('(a) nest: all ordered pairs of a seeded pool of formulas (trees of the 
         'two 4-step evaluations + seeded schedules; thorough = ALL interleavings of pairs of short evaluations (6+6 steps: 924, and '
         'two error pairs) + seeded 3-thread schedules; the tokens each thread fetched are compared with the Lean model. stress: 4 '
         'free-running threads x 300 evaluations on distinct parsers, switch interval 1 µs, while a fifth thread keeps constructing '
-        'parsers (each construction rebinds ply\'s process-global lexer) and evaluates on them. Non-trivial = a nested evaluation '
-        'actually ran / the schedule switches between unfinished threads.')
+        'parsers (each construction rebinds ply\'s process-global lexer) and evaluates on them. '
+        '(d) sheet: seeded random spreadsheets (2-5 x 2-5 cells; constants: integers, 0, blank, logicals, text, the empty text, '
+        'dyadic fractions; formulas over cell references (mixed case, $-forms), ranges written in all four corner orders and '
+        'mixed case that like to share corner labels, SUM / IF / ISBLANK / IFERROR / NULL / + - * / & and comparisons; acyclic by '
+        'a seeded direction in which references go, nesting depth <= 2 by levels) served by a host on long-lived parsers P, Q, R '
+        'that live for the whole process: the callCellValue listener evaluates the cell\'s formula re-entrantly (seeded: on the '
+        'same parser / alternating between P and Q / on parsers constructed inside the listener / a seeded mix; with or without '
+        'memoising per query) and hands the inner result to the setter (an inner error: seeded, as blank result or as the error '
+        'value); the callRangeValue listener walks start.row.index .. end.col.index (seeded: re-read at every cell / at every '
+        'row / read once), resolving every cell the same way, and keeps the Cell objects it received. Runs per sheet: every '
+        'query (a formula cell by reference, ISBLANK / IF(ISBLANK) / SUM of one, the whole sheet and seeded ranges in seeded '
+        'corner orders, a seeded expression) on P; then seeded extra runs in which, at a seeded hold point of the listeners '
+        '(before a cell is resolved, i.e. between two uses of the held objects) one more complete evaluation is interposed - '
+        'on the same parser, nested on parser R, or on R in ANOTHER THREAD while the first thread waits (one forced '
+        'interleaving per hold point) - its formula half of the time a range that shares a written corner label with a range '
+        'of the sheet, the other corner anywhere, in either order; every 25th sheet (thorough: every 4th) sweeps EVERY hold '
+        'point of one query x the three ways. Oracle: every evaluation that ran (query, nested, interposed, other thread) gives '
+        'the record and makes the lookups (labels, coordinates, values set) that the same formula gives in the reference: the '
+        'sheet evaluated bottom-up, every formula ALONE on a reference parser the host never sees (a fresh one per formula for '
+        'every 5th sheet and the fixed witnesses, else one fresh parser per sheet used strictly sequentially), the values of '
+        'the cells it mentions computed before and supplied as plain constants; and the Cell objects a listener holds read the '
+        'same after every evaluation that ran while it was using them as when it received them. Model: the Lean evaluator on '
+        'every formula of the sheet with the cells / ranges bound to the reference values (formulas in which text reaches '
+        'arithmetic excepted). 4 fixed witnesses of formerly missed changes are always run. '
+        'Non-trivial = a nested evaluation actually ran / the schedule switches between unfinished threads.')
 TRUSTED = ['granularity: the controlled scheduler and the Lean model interleave at lexer operations (Lexer.input / Lexer.token); '
            'interleavings inside these methods (bytecode level) are exercised only by the free-running stress test',
            'CPython object internals (GIL atomicity of dict/list operations, copy.copy in Lexer.clone) are not modelled',
@@ -56,13 +87,32 @@ TRUSTED = ['granularity: the controlled scheduler and the Lean model interleave 
            'and exercised by the same-parser nesting cases with failing formulas',
            'the machine step of an activation (LR automaton + semantic actions) is a parameter of the Lean model; the driver '
            'comparison instantiates only the lexer side (token sequences), with the number of fetches of each activation taken '
-           'from its SOLO run on the real implementation']
+           'from its SOLO run on the real implementation',
+           'sheet cases: the Lean model has no host that evaluates inside a listener; the model comparison binds the cells and '
+           'ranges of every formula to the values of the bottom-up reference run of the REAL implementation (inner outcomes are '
+           'data for the model) and compares the model\'s record with the record observed inside the running sheet and alone',
+           'sheet cases: the harness\'s own reading of a formula text (which cells a formula mentions, for the bottom-up order) '
+           'is a regular expression over texts its own generator wrote; a lookup the text does not announce aborts the run '
+           'as a harness error',
+           'sheet cases with another thread: one forced interleaving per hold point (thread 1 up to the hold point, thread 2 '
+           'completely, thread 1 to the end); finer interleavings of such hosts are not enumerated']
 ASSUMPTIONS = ['"outcome" = the record returned by Parser.parse; the sequence of callback events of an evaluation is compared too '
                '(an evaluation that made different host calls was influenced)',
                'host callbacks return values that do not depend on the nested evaluation (the hook function is the identity); '
                'the solo run of the outer formula uses the same callbacks with the nested evaluation switched off',
                'threads run on DISTINCT parser objects (the statement does not promise one parser object to be usable from '
-               'two threads at once)']
+               'two threads at once)',
+               'sheet cases: a listener that evaluates the formula of a cell and hands its result to the setter is a host '
+               'whose answer depends on the nested evaluation only through that evaluation\'s outcome; "the outcome it yields when '
+               'run alone" is therefore computed bottom-up: the formula on a parser of the reference, the outcomes of the cells '
+               'it mentions supplied as constants. Sheets are generated with nesting depth <= 2 (query -> formula cell -> formula '
+               'cell), the depth the statement quantifies over; an evaluation in another thread may itself nest to that depth',
+               'sheet cases: the arguments an evaluation hands to its listeners belong to that evaluation: Cell objects that '
+               'change their label / coordinates while the listener that received them is still running, because another '
+               'evaluation ran in between, count as one evaluation influencing the other (checked only within the event, not '
+               'after the listener returned)',
+               'the reference parser of a sheet may serve several formulas one after the other (sequential reuse of a parser '
+               'is not this property\'s subject); every 5th sheet uses a fresh parser per formula']
 EXHAUSTIVE = {'quick': False, 'thorough': False}
 
 KINDS = ['fn', 'var', 'cell', 'range', 'callfn']
@@ -445,7 +495,7 @@ def judge_nested(outer, plan, frames, anomalies):
 # =========================================================================== (b) bindings
 
 BIND_WHAT = ['variable', 'predefined', 'function', 'builtin', 'callVariable', 'callCellValue', 'callRangeValue',
-             'callFunction', 'once']
+             'callFunction', 'once', 'journal']
 
 
 def run_bind(c):
@@ -459,7 +509,7 @@ def run_bind(c):
     P = hotxlfp.Parser()
     probe = {'variable': name, 'predefined': name, 'function': name + '(1,2)', 'builtin': name + '(1,2)',
              'callVariable': name, 'callCellValue': 'A1', 'callRangeValue': 'A1:B2', 'callFunction': 'SUM(1,2)',
-             'once': 'A1'}[what]
+             'once': 'A1', 'journal': name}[what]
     obs['probe'] = probe
     obs['before'] = canon_rec(Qb.parse(probe))
     if what in ('variable', 'predefined'):
@@ -476,6 +526,11 @@ def run_bind(c):
         P.on('callFunction', lambda n, a, setter: (calls.append(n), setter(val)))
     elif what == 'once':
         P.once('callCellValue', lambda cell, setter: (calls.append(cell.label), setter(val)))
+    elif what == 'journal':
+        # a call journal on P that edits the argument list it is handed (its own copy, as far as the host can tell)
+        P.on('callFunction', lambda n, a, setter: (calls.append(n), a.insert(0, val), a.append(n)))
+        P.parse(probe)
+        del calls[:]
     Qa = hotxlfp.Parser()
     obs['Q_before'] = canon_rec(Qb.parse(probe))
     obs['Q_after'] = canon_rec(Qa.parse(probe))
@@ -720,6 +775,763 @@ def run_stress(c):
     return {'bad': bad, 'evaluations': n * m + built[0], 'constructed': built[0]}
 
 
+# =========================================================================== (d) spreadsheet-style host
+#
+# A sheet = {label: constant | '=formula'}.  The host keeps ONE long-lived parser P (and Q, R); its callCellValue
+# listener resolves a cell by evaluating the cell's formula re-entrantly (same parser / the other long-lived parser /
+# a parser built on the spot) and hands the inner RESULT to the setter; its callRangeValue listener walks the
+# coordinates of the two Cell objects it was given PROGRESSIVELY (re-reading start/end while it goes) and resolves
+# every cell the same way, so that complete evaluations run between two uses of the objects the listener holds.
+# The reference: every formula on a parser of its own, dependencies first, their values fed in as constants.
+
+_REF = re.compile(r'(\$?)([A-Za-z]+)(\$?)([0-9]+)(?::(\$?)([A-Za-z]+)(\$?)([0-9]+))?')
+SHEET_MAX_LEVEL = 2            # the statement quantifies to nesting depth 2: query -> formula cell -> formula cell
+SHEET_EVAL_CAP = 4000
+SHEET_NEW_PARSERS = 2          # parsers a sheet case constructs inside its listeners (then it goes on using those)
+
+
+class SheetBudget(BaseException):
+    """a sheet evaluation ran away (not an Exception: Parser.parse swallows those)"""
+
+
+def col_label(c):
+    s, c = '', c + 1
+    while c > 0:
+        c, r = divmod(c - 1, 26)
+        s = chr(65 + r) + s
+    return s
+
+
+def col_index(s):
+    n = 0
+    for ch in s.upper():
+        n = n * 26 + ord(ch) - 64
+    return n - 1
+
+
+def lab(r, c):
+    return col_label(c) + str(r + 1)
+
+
+def unlab(label):
+    col = label.rstrip('0123456789')
+    return int(label[len(col):]) - 1, col_index(col)
+
+
+def is_formula(content):
+    return isinstance(content, str) and content.startswith('=')
+
+
+def static_refs(formula):
+    """the references written in a formula (the generator writes no digits outside numbers and references):
+    ('cell', spelled upper, r, c) | ('range', [r1, c1, r2, c2] normalised, spelled start upper, spelled end upper)"""
+    out = []
+    for m in _REF.finditer(formula):
+        a1, cl1, a2, rw1, b1, cl2, b2, rw2 = m.groups()
+        r, c = int(rw1) - 1, col_index(cl1)
+        if cl2 is None:
+            out.append(('cell', m.group(0).upper(), r, c))
+        else:
+            r2, c2 = int(rw2) - 1, col_index(cl2)
+            s, e = m.group(0).upper().split(':')
+            out.append(('range', [min(r, r2), min(c, c2), max(r, r2), max(c, c2)], s, e))
+    return out
+
+
+def static_deps(formula):
+    """labels of the cells a formula looks up, ranges expanded"""
+    deps = []
+    for ref in static_refs(formula):
+        if ref[0] == 'cell':
+            deps.append(lab(ref[2], ref[3]))
+        else:
+            r1, c1, r2, c2 = ref[1]
+            deps += [lab(r, c) for r in range(r1, r2 + 1) for c in range(c1, c2 + 1)]
+    return deps
+
+
+def sheet_level(cells, formula, memo=None, path=()):
+    """how deep the evaluation of a formula nests on this sheet (0 = it touches constants only)"""
+    memo = {} if memo is None else memo
+    lv = 0
+    for d in set(static_deps(formula)):
+        content = cells.get(d)
+        if not is_formula(content):
+            continue
+        if d in path:
+            raise ValueError('cyclic sheet at %s' % d)
+        if d not in memo:
+            memo[d] = 1 + sheet_level(cells, content[1:], memo, path + (d,))
+        lv = max(lv, memo[d])
+    return lv
+
+
+def snap(cell):
+    """what a listener can read off a Cell object"""
+    def pl(x):
+        try:
+            return [x.index, x.label, x.is_absolute]
+        except AttributeError:
+            return repr(x)
+    return [cell.label, pl(cell.row), pl(cell.col)]
+
+
+def host_value(opt, rec):
+    """what the host puts into a cell whose formula evaluated to `rec`"""
+    if rec['error'] is not None and opt.get('errors') == 'pass':
+        from hotxlfp.formulas import error
+        return error.from_message(rec['error'])
+    return rec['result']
+
+
+_sheet_host = [None]
+_sheet_parsers = {}
+
+
+def _bind_sheet(p, name):
+    def on_cell(cell, setter):
+        h = _sheet_host[0]
+        if h is not None:
+            h.on_cell(name, cell, setter)
+
+    def on_range(start, end, setter):
+        h = _sheet_host[0]
+        if h is not None:
+            h.on_range(name, start, end, setter)
+    p.on('callCellValue', on_cell)
+    p.on('callRangeValue', on_range)
+    return p
+
+
+def sheet_parser(name):
+    """the long-lived parsers of the sheet host: they serve every sheet case of the process"""
+    if name not in _sheet_parsers:
+        common.load_repo()
+        import hotxlfp
+        _sheet_parsers[name] = _bind_sheet(hotxlfp.Parser(), name)
+    return _sheet_parsers[name]
+
+
+PARSER_TEXT = {'P': 'the long-lived parser P', 'Q': 'the second long-lived parser Q', 'R': 'a third long-lived parser R'}
+
+
+def parser_text(name):
+    return PARSER_TEXT.get(name, 'a parser %s constructed inside the listener' % name)
+
+
+class SheetHost(object):
+    """one top-level evaluation on the sheet, formula cells resolved re-entrantly"""
+
+    def __init__(self, c, extra=None, new=None):
+        self.cells = c['cells']
+        self.opt = c['host']
+        self.rng = _random.Random(c.get('seed', 0))
+        self.frames = []
+        self.stacks = {}
+        self.anomalies = []
+        self.points = 0
+        self.extra = extra
+        self.extra_at = None
+        self.extra_level = sheet_level(self.cells, extra['formula']) if extra else 0
+        self.memo = {}
+        self.new = {} if new is None else new      # parsers constructed inside listeners (kept for the whole case)
+        self.ticks = 0
+        self.main = threading.get_ident()
+
+    # ---- evaluations
+    def stack(self):
+        return self.stacks.setdefault(threading.get_ident(), [])
+
+    def parser(self, name):
+        if name in self.new:
+            return self.new[name]
+        return sheet_parser(name)
+
+    def evaluate(self, formula, pname, why):
+        st = self.stack()
+        fr = {'f': formula, 'on': pname, 'events': [], 'rec': None, 'why': why,
+              'parent': self.frames.index(st[-1]) if st else None, 'depth': len(st),
+              'thread': threading.get_ident() != self.main}
+        self.frames.append(fr)
+        if len(self.frames) > SHEET_EVAL_CAP:
+            raise SheetBudget('more than %d evaluations' % SHEET_EVAL_CAP)
+        p = self.parser(pname)
+        st.append(fr)
+        try:
+            fr['rec'] = p.parse(formula)
+        finally:
+            st.pop()
+        return fr['rec']
+
+    def pick_target(self, current):
+        t = self.opt.get('target', 'same')
+        if current not in ('P', 'Q'):
+            t = 'same' if t == 'alt' else t      # R (other thread / extra) and new parsers never touch P or Q
+        if t == 'mix':
+            t = self.rng.choice(['same', 'alt', 'new'] if current in ('P', 'Q') else ['same', 'new'])
+        if t == 'alt':
+            return 'Q' if current == 'P' else 'P'
+        if t == 'new':
+            if len(self.new) < SHEET_NEW_PARSERS:
+                import hotxlfp
+                name = 'N%d' % (len(self.new) + 1)
+                self.new[name] = _bind_sheet(hotxlfp.Parser(), name)     # constructed while evaluations are in progress
+                return name
+            others = sorted(n for n in self.new if n != current)
+            return self.rng.choice(others) if others else current
+        return current
+
+    def resolve(self, r, c, current):
+        label = lab(r, c)
+        content = self.cells.get(label)
+        if not is_formula(content):
+            return content
+        if self.opt.get('memo') and label in self.memo:
+            return self.memo[label]
+        rec = self.evaluate(content[1:], self.pick_target(current), 'formula of cell %s' % label)
+        v = host_value(self.opt, rec)
+        if self.opt.get('memo'):
+            self.memo[label] = v
+        return v
+
+    # ---- a point between two uses of the objects a listener holds: the seeded extra evaluation goes here
+    def point(self):
+        if threading.get_ident() != self.main:
+            return
+        k = self.points
+        self.points += 1
+        ex = self.extra
+        if ex is None or self.extra_at is not None or k < ex['at'] or (ex.get('exact') and k > ex['at']):
+            return
+        depth = len(self.stack()) - 1
+        if ex['where'] != 'thread' and depth + 1 + self.extra_level > SHEET_MAX_LEVEL:
+            return        # would nest deeper than the statement quantifies: take the next point that fits
+        self.extra_at = k
+        current = self.stack()[-1]['on']
+        if ex['where'] == 'same':
+            self.evaluate(ex['formula'], current, 'interposed')
+        elif ex['where'] == 'other':
+            self.evaluate(ex['formula'], 'R', 'interposed')
+        else:
+            err = []
+
+            def work():
+                try:
+                    self.evaluate(ex['formula'], 'R', 'in another thread')
+                except BaseException as e:
+                    err.append(e)
+            th = threading.Thread(target=work, daemon=True)
+            th.start()
+            th.join(60)
+            if th.is_alive():
+                raise HarnessTimeout('the thread evaluating %r did not finish in 60 s' % (ex['formula'],))
+            if err:
+                raise err[0]
+
+    def tick(self):
+        self.ticks += 1
+        if self.ticks > 50 * SHEET_EVAL_CAP:
+            raise SheetBudget('a range listener walked more than %d cells' % self.ticks)
+
+    # ---- listeners
+    def top(self, name, what):
+        st = self.stack()
+        if not st:
+            self.anomalies.append('a %s listener of %s fired outside any evaluation' % (what, parser_text(name)))
+            return None
+        if st[-1]['on'] != name:
+            self.anomalies.append('a %s listener registered on %s fired during an evaluation on %s' % (
+                what, parser_text(name), parser_text(st[-1]['on'])))
+            return None
+        return st[-1]
+
+    def held(self, fr, what, objs, hold):
+        now = [snap(o) for o in objs]
+        if now != hold and not fr.get('held'):
+            fr['held'] = ('the Cell objects handed to the %s listener changed while the listener was still using them '
+                          '(other evaluations ran in between): received %r, now %r' % (what, hold, now))
+
+    def on_cell(self, name, cell, setter):
+        fr = self.top(name, 'callCellValue')
+        if fr is None:
+            return
+        hold = [snap(cell)]
+        label0, r, c = cell.label, cell.row.index, cell.col.index
+        self.point()
+        self.held(fr, 'callCellValue', [cell], hold)
+        v = self.resolve(cell.row.index, cell.col.index, name)
+        self.held(fr, 'callCellValue', [cell], hold)
+        fr['events'].append(['cell', label0, r, c, canon(v)])
+        setter(v)
+
+    def on_range(self, name, start, end, setter):
+        fr = self.top(name, 'callRangeValue')
+        if fr is None:
+            return
+        hold = [snap(start), snap(end)]
+        ev = ['range', start.label, end.label, [start.row.index, start.col.index, end.row.index, end.col.index]]
+        style = self.opt.get('walk', 'cells')
+        rows = []
+        if style == 'eager':
+            r1, c1, r2, c2 = ev[3]
+            for r in range(r1, r2 + 1):
+                row = []
+                for c in range(c1, c2 + 1):
+                    self.point()
+                    row.append(self.resolve(r, c, name))
+                    self.held(fr, 'callRangeValue', [start, end], hold)
+                rows.append(row)
+        else:
+            r = start.row.index
+            while r <= end.row.index:
+                row = []
+                c = start.col.index
+                last = end.col.index           # 'rows': the columns of a row are fixed when the row is begun
+                while c <= (last if style == 'rows' else end.col.index):
+                    self.tick()
+                    self.point()
+                    row.append(self.resolve(r, c, name))
+                    self.held(fr, 'callRangeValue', [start, end], hold)
+                    c += 1
+                rows.append(row)
+                r += 1
+        ev.append(canon(rows))
+        fr['events'].append(ev)
+        setter(rows)
+
+
+class SheetRef(object):
+    """the independent reference: every (sub)formula evaluated ALONE on a parser of its own, bottom-up - the values
+    of the cells it looks up are computed first and handed to it as plain constants; no evaluation ever runs inside
+    another one"""
+
+    def __init__(self, c):
+        self.cells = c['cells']
+        self.opt = c['host']
+        self.values = {}
+        self.alone_ = {}
+        self.busy = set()
+        self.p = None
+        self.current = None
+        self.per_formula = c.get('ref', 'formula') == 'formula'
+
+    def parser(self):
+        """the reference's own parser, never seen by the host: a fresh one for every formula (case['ref'] = 'formula'),
+        or one fresh parser per sheet used strictly sequentially - one complete evaluation after the other, none
+        inside a listener (case['ref'] = 'sheet': constructing a parser is slow when ply has no cached tables)"""
+        if self.p is None or self.per_formula:
+            common.load_repo()
+            import hotxlfp
+            self.p = hotxlfp.Parser()
+
+            def on_cell(cell, setter):
+                get, events = self.current
+                r, c = cell.row.index, cell.col.index
+                v = get(r, c)
+                events.append(['cell', cell.label, r, c, canon(v)])
+                setter(v)
+
+            def on_range(start, end, setter):
+                get, events = self.current
+                r1, c1, r2, c2 = start.row.index, start.col.index, end.row.index, end.col.index
+                rows = [[get(r, c) for c in range(c1, c2 + 1)] for r in range(r1, r2 + 1)]
+                events.append(['range', start.label, end.label, [r1, c1, r2, c2], canon(rows)])
+                setter(rows)
+            self.p.on('callCellValue', on_cell)
+            self.p.on('callRangeValue', on_range)
+        return self.p
+
+    def value(self, label):
+        content = self.cells.get(label)
+        if not is_formula(content):
+            return content
+        if label not in self.values:
+            if label in self.busy:
+                raise ValueError('cyclic sheet at %s' % label)
+            self.busy.add(label)
+            self.values[label] = host_value(self.opt, self.alone(content[1:])['raw'])
+            self.busy.discard(label)
+        return self.values[label]
+
+    def alone(self, formula):
+        if formula in self.alone_:
+            return self.alone_[formula]
+        known = {}
+        for d in static_deps(formula):          # dependencies first, in Python: no parser is running here
+            known[d] = self.value(d)
+        events = []
+        trouble = []
+
+        def get(r, c):
+            label = lab(r, c)
+            if label not in known:
+                if is_formula(self.cells.get(label)):
+                    trouble.append('the reference evaluation of %r looked up %s, which its text does not mention' % (formula, label))
+                    return None
+                return self.cells.get(label)
+            return known[label]
+        if self.current is not None:
+            raise RuntimeError('reference evaluations must not nest')
+        self.current = (get, events)
+        try:
+            rec = self.parser().parse(formula)
+        finally:
+            self.current = None
+        if trouble:
+            raise RuntimeError(trouble[0])
+        res = {'raw': rec, 'rec': canon_rec(rec), 'events': events}
+        self.alone_[formula] = res
+        return res
+
+
+def frame_path(frames, fr):
+    chain = []
+    while fr is not None:
+        chain.append(fr)
+        fr = frames[fr['parent']] if fr['parent'] is not None else None
+    chain.reverse()
+    return ' > '.join('%r on %s%s' % (f['f'], f['on'], ' [%s]' % f['why'] if f['why'] not in (None, 'query') else '') for f in chain)
+
+
+ALONE_TEXT = 'evaluated alone (on a fresh parser, the values of the cells it looks up supplied as constants) it'
+
+
+def judge_sheet(host, ref):
+    """the statement on one top-level evaluation of the sheet host: EVERY evaluation that ran (the query, the nested
+    ones, the interposed one) yields what it yields alone"""
+    for fr in host.frames:
+        a = ref.alone(fr['f'])
+        if fr['rec'] is None:
+            continue        # cut short by a budget: reported below
+        if canon_rec(fr['rec']) != a['rec']:
+            return 'the evaluation %s gives %r, %s gives %r' % (frame_path(host.frames, fr), canon_rec(fr['rec']), ALONE_TEXT, a['rec'])
+    for fr in host.frames:
+        a = ref.alone(fr['f'])
+        if fr['rec'] is not None and fr['events'] != a['events']:
+            return 'the evaluation %s made the lookups %r, %s makes %r' % (frame_path(host.frames, fr), fr['events'], ALONE_TEXT, a['events'])
+    for fr in host.frames:
+        if fr.get('held'):
+            return 'during the evaluation %s: %s' % (frame_path(host.frames, fr), fr['held'])
+    if host.anomalies:
+        return host.anomalies[0]
+    return None
+
+
+def run_sheet_once(c, formula, extra, new=None):
+    host = SheetHost(c, extra, new)
+    for n in ('P', 'Q', 'R'):
+        sheet_parser(n)
+    _sheet_host[0] = host
+    try:
+        try:
+            host.evaluate(formula, 'P', 'query')
+        except SheetBudget as e:
+            host.anomalies.append('the evaluation of %r on the sheet ran away: %s' % (formula, e))
+    finally:
+        _sheet_host[0] = None
+    return host
+
+
+def sheet_formulas(c):
+    """every formula text of a sheet case, distinct, in a fixed order"""
+    fs = []
+    for label in sorted(c['cells']):
+        if is_formula(c['cells'][label]):
+            fs.append(c['cells'][label][1:])
+    fs += list(c['queries']) + [e['formula'] for e in c.get('extras', [])]
+    seen = []
+    for f in fs:
+        if f not in seen:
+            seen.append(f)
+    return seen
+
+
+def run_sheet(c):
+    ref = SheetRef(c)
+    runs = []
+    new = {}
+    observed = {}
+    npoints = []
+
+    def note(host):
+        for fr in host.frames:
+            if fr['rec'] is not None and fr['f'] not in observed:
+                observed[fr['f']] = fr['rec']
+    for qi, q in enumerate(c['queries']):
+        if sheet_level(c['cells'], q) > SHEET_MAX_LEVEL:
+            raise ValueError('sheet case nests deeper than %d: %r' % (SHEET_MAX_LEVEL, q))
+        host = run_sheet_once(c, q, None, new)
+        note(host)
+        npoints.append(host.points)
+        runs.append({'q': qi, 'extra': None, 'msg': judge_sheet(host, ref), 'nframes': len(host.frames),
+                     'nested': len([f for f in host.frames if f['depth'] > 0])})
+    plan = []
+    for ei, ex in enumerate(c.get('extras', [])):
+        if sheet_level(c['cells'], ex['formula']) > SHEET_MAX_LEVEL:
+            raise ValueError('sheet case nests deeper than %d: %r' % (SHEET_MAX_LEVEL, ex['formula']))
+        qi = ex['q'] % len(c['queries'])
+        if not npoints[qi]:
+            continue
+        if ei == 0 and c.get('sweep'):
+            # EVERY hold point of the query x every way of interposing
+            lv = sheet_level(c['cells'], ex['formula'])
+            for at in range(npoints[qi]):
+                for where in (('same', 'other', 'thread') if lv < SHEET_MAX_LEVEL else ('thread',)):
+                    plan.append({'q': qi, 'at': at, 'formula': ex['formula'], 'where': where, 'exact': True})
+        else:
+            plan.append({'q': qi, 'at': ex['at'] % npoints[qi], 'formula': ex['formula'], 'where': ex['where']})
+    for ex in plan:
+        host = run_sheet_once(c, c['queries'][ex['q']], ex, new)
+        if ex.get('exact') and host.extra_at != ex['at']:
+            continue        # this point does not admit the formula within the depth bound (a later one was taken: covered there)
+        note(host)
+        runs.append({'q': ex['q'], 'extra': ex, 'msg': judge_sheet(host, ref), 'nframes': len(host.frames),
+                     'nested': len([f for f in host.frames if f['depth'] > 0 or f['thread']]),
+                     'fired': host.extra_at})
+    fs = sheet_formulas(c)
+    alone = {f: ref.alone(f) for f in fs}
+    # the model's view: every formula, the values of the cells / ranges it mentions as the reference computed them
+    cells, ranges = {}, {}
+    for f in fs:
+        for r in static_refs(f):
+            if r[0] == 'cell':
+                cells[r[1]] = ref.value(lab(r[2], r[3]))
+            else:
+                r1, c1, r2, c2 = r[1]
+                ranges[(lab(r1, c1), lab(r2, c2))] = [[ref.value(lab(i, j)) for j in range(c1, c2 + 1)] for i in range(r1, r2 + 1)]
+    # text that reaches arithmetic is outside the value-level model comparison (dateutil reads "-3-3", "7-6" as
+    # dates): formulas that concatenate inside a larger expression or look up text other than the plain words
+    risky = [f for f in fs if ('&' in f and _BEYOND_AMP.search(f))
+             or any(has_odd_text(ref.value(d)) for d in static_deps(f))]
+    return {'runs': runs, 'formulas': fs, 'observed': observed, 'alone': {f: alone[f]['raw'] for f in fs}, 'risky': risky,
+            'env': fx.env_wire(cells=cells, ranges=ranges), 'ref_evals': len(ref.alone_)}
+
+
+_BEYOND_AMP = re.compile(r'[-+*/<>=]|SUM|IF|ISBLANK')
+SAFE_TEXT = ('ab', 'xy', '', 'blank', 'filled')
+
+
+def has_odd_text(v):
+    if isinstance(v, str):
+        return v not in SAFE_TEXT
+    if isinstance(v, list):
+        return any(has_odd_text(x) for x in v)
+    return False
+
+
+def describe_sheet_run(c, r):
+    s = 'sheet %s, host %s: query %r on the long-lived parser P' % (
+        json.dumps(c['cells'], sort_keys=True), json.dumps(c['host'], sort_keys=True), c['queries'][r['q']])
+    if r['extra'] is not None:
+        ex = r['extra']
+        s += '; at hold point %s of the listeners %r is evaluated %s' % (
+            r.get('fired'), ex['formula'], {'same': 'on the SAME parser', 'other': 'on another long-lived parser (nested)',
+                                            'thread': 'on another parser in ANOTHER THREAD (the first thread waits)'}[ex['where']])
+    return s
+
+
+# ---- seeded sheets
+
+def spell(rng, r, c, absolute=False):
+    col = ''.join(ch.lower() if rng.random() < 0.25 else ch for ch in col_label(c))
+    if absolute and rng.random() < 0.12:
+        return rng.choice(['$%s$%d', '%s$%d', '$%s%d']) % (col, r + 1)
+    return '%s%d' % (col, r + 1)
+
+
+def gen_sheet(rng, thorough=False, sweep=False, ref='formula'):
+    """a random acyclic sheet: a direction (references only go right / left / down / up) makes it acyclic, levels
+    (a formula only mentions cells of level <= 1) bound the nesting depth by SHEET_MAX_LEVEL"""
+    hi = 6 if thorough else 5
+    ncols, nrows = rng.randrange(2, hi), rng.randrange(2, hi)
+    direction = rng.choice(['right', 'left', 'down', 'up'])
+    every = [(r, c) for r in range(nrows) for c in range(ncols)]
+    pool = rng.sample(every, min(len(every), rng.randrange(3, 6)))      # corner labels the ranges like to share
+
+    def rank(rc):
+        r, c = rc
+        return {'right': c, 'left': ncols - 1 - c, 'down': r, 'up': nrows - 1 - r}[direction]
+
+    def region(rc):
+        k = rank(rc)
+        return [x for x in every if rank(x) > k]
+
+    cells = {}
+    level = {}
+
+    class G(object):
+        def __init__(self, reg, maxlevel):
+            self.reg = reg
+            self.maxlevel = maxlevel      # cells of a higher level must not be mentioned
+            self.ok = [x for x in reg if level.get(x, 0) <= maxlevel]
+            self.pool = [x for x in pool if x in reg]
+
+        def corner(self):
+            if self.pool and rng.random() < 0.6:
+                return rng.choice(self.pool)
+            return rng.choice(self.reg)
+
+        def cellref(self):
+            cand = [x for x in self.pool if x in self.ok] if rng.random() < 0.4 else []
+            r, c = rng.choice(cand or self.ok)
+            return spell(rng, r, c, True)
+
+        def rng_text(self, a, b):
+            (r1, c1), (r2, c2) = a, b
+            form = rng.randrange(4)
+            if form == 1:
+                a, b = b, a
+            elif form == 2:
+                a, b = (r1, c2), (r2, c1)
+            elif form == 3:
+                a, b = (r2, c1), (r1, c2)
+            return spell(rng, *a) + ':' + spell(rng, *b)
+
+        def range_(self):
+            for _ in range(8):
+                a, b = self.corner(), self.corner()
+                rect = [(r, c) for r in range(min(a[0], b[0]), max(a[0], b[0]) + 1)
+                        for c in range(min(a[1], b[1]), max(a[1], b[1]) + 1)]
+                if all(x in self.reg and level.get(x, 0) <= self.maxlevel for x in rect):
+                    return self.rng_text(a, b)
+            return self.cellref()
+
+        def atom(self):
+            x = rng.random()
+            if x < 0.7:
+                return self.cellref()
+            if x < 0.9:
+                return str(rng.randrange(0, 13))
+            return rng.choice(['"ab"', 'TRUE', 'FALSE', '"xy"'])
+
+        def operand(self, d):
+            if d <= 0 or rng.random() < 0.6:
+                return self.atom()
+            return '(' + self.scalar(d) + ')'
+
+        def cond(self, d):
+            x = rng.random()
+            if x < 0.3:
+                return 'ISBLANK(%s)' % self.cellref()
+            lhs = self.cellref() if x < 0.75 else 'SUM(%s)' % self.range_()
+            rhs = str(rng.randrange(0, 9)) if rng.random() < 0.7 else self.cellref()
+            return lhs + rng.choice(['>', '<', '=', '<>', '>=', '<=']) + rhs
+
+        def branch(self, d):
+            return 'NULL' if rng.random() < 0.3 else self.scalar(d)
+
+        def scalar(self, d):
+            x = rng.random()
+            if d <= 0 or x < 0.2:
+                return self.atom()
+            if x < 0.45:
+                args = []
+                for _ in range(rng.randrange(1, 4)):
+                    y = rng.random()
+                    args.append(self.range_() if y < 0.6 else self.cellref() if y < 0.88 else str(rng.randrange(0, 9)))
+                return 'SUM(' + ','.join(args) + ')'
+            if x < 0.65:
+                return 'IF(%s,%s,%s)' % (self.cond(d - 1), self.branch(d - 1), self.branch(d - 1))
+            if x < 0.75:
+                risky = '%s/%s' % (self.operand(d - 1), rng.choice(['0', self.cellref()])) if rng.random() < 0.6 else self.scalar(d - 1)
+                return 'IFERROR(%s,%s)' % (risky, self.branch(d - 1))
+            if x < 0.8:
+                return 'ISBLANK(%s)' % self.cellref()
+            if x < 0.84:
+                return '%s/%s' % (self.operand(d - 1), rng.choice(['0', self.cellref()]))
+            if x < 0.96:
+                return self.operand(d - 1) + rng.choice('+-*') + self.operand(d - 1)
+            return self.operand(d - 1) + '&' + self.operand(d - 1)
+
+    def constant():
+        x = rng.random()
+        if x < 0.2:
+            return None
+        if x < 0.28:
+            return rng.choice([True, False])
+        if x < 0.36:
+            return rng.choice(['ab', 'xy', ''])
+        if x < 0.4:
+            return rng.choice([2.5, -0.5, 0.25])
+        if x < 0.5:
+            return 0
+        return rng.randrange(-3, 13)
+
+    density = rng.choice([0.35, 0.5, 0.7])
+    for rc in sorted(every, key=lambda x: -rank(x)):
+        reg = region(rc)
+        content = constant()
+        if reg and rng.random() < density:
+            f = G(reg, SHEET_MAX_LEVEL - 1).scalar(rng.randrange(1, 3))
+            content = '=' + f
+        cells[lab(*rc)] = content
+        level[rc] = 0
+        if is_formula(content):
+            level[rc] = 1 + max([level.get(unlab(d), 0) for d in static_deps(content[1:])] or [0])
+    formula_cells = [rc for rc in every if is_formula(cells[lab(*rc)])]
+    whole = G(every, SHEET_MAX_LEVEL)
+    queries = []
+    for rc in rng.sample(formula_cells, min(len(formula_cells), 2)):
+        L = spell(rng, *rc)
+        queries.append(rng.choice(['%s', 'ISBLANK(%s)', 'IF(ISBLANK(%s),"blank","filled")', 'SUM(%s,1)', '%s+1', '%s&"|"']) % L)
+    queries.append('SUM(%s)' % whole.rng_text((0, 0), (nrows - 1, ncols - 1)))
+    for _ in range(rng.randrange(1, 3)):
+        queries.append('SUM(%s)' % whole.range_())
+    queries.append(whole.scalar(2))
+    # evaluations interposed between two uses of the objects a listener holds
+    written = [x for f in [cells[k][1:] for k in cells if is_formula(cells[k])] + queries
+               for ref in static_refs(f) if ref[0] == 'range' for x in (ref[2], ref[3])]
+    extras = []
+    for _ in range(6 if thorough else 3):
+        x = rng.random()
+        if x < 0.5 and written:
+            # a range that shares a written corner label with a range of the sheet, the other corner anywhere
+            L = rng.choice(written)
+            M = spell(rng, *rng.choice(every))
+            if rng.random() < 0.5:
+                L = L.lower()
+            f = 'SUM(%s:%s)' % ((L, M) if rng.random() < 0.5 else (M, L))
+        elif x < 0.75:
+            f = 'SUM(%s)' % whole.range_()
+        elif x < 0.9 and formula_cells:
+            f = rng.choice(['%s', 'ISBLANK(%s)', 'SUM(%s,1)']) % spell(rng, *rng.choice(formula_cells))
+        else:
+            f = G(every, SHEET_MAX_LEVEL - 1).scalar(2)
+        where = rng.choice(['same', 'other', 'thread'])
+        if sheet_level(cells, f) >= SHEET_MAX_LEVEL:
+            where = 'thread'      # nested under a listener it would exceed the depth the statement quantifies over
+        extras.append({'q': rng.randrange(len(queries)), 'at': rng.randrange(1 << 16), 'formula': f, 'where': where})
+    host = {'errors': rng.choice(['drop', 'drop', 'pass']), 'memo': rng.random() < 0.25,
+            'target': rng.choice(['same', 'same', 'same', 'alt', 'alt', 'new', 'mix']),
+            'walk': rng.choice(['cells', 'cells', 'cells', 'rows', 'rows', 'eager'])}
+    c = {'kind': 'sheet', 'cells': cells, 'queries': queries, 'extras': extras, 'host': host,
+         'seed': rng.randrange(1 << 30), 'ref': ref}
+    if sweep:
+        c['sweep'] = True
+    return c
+
+
+# minimal witnesses of changes this check once missed (regression cases; the generator reaches both classes on its own)
+SHEET_CORPUS = [
+    # a formula cell whose result is blank, resolved on the same parser: the blank must stay blank
+    {'kind': 'sheet', 'cells': {'A1': '=IF(B1>3,NULL,B1)', 'A2': '=B1*2', 'B1': 5},
+     'queries': ['A2+1', 'A1', 'ISBLANK(A1)', 'IF(ISBLANK(A1),"blank","filled")', 'SUM(A1,A2,1)'], 'extras': [],
+     'host': {'errors': 'drop', 'memo': False, 'target': 'same', 'walk': 'cells'}, 'seed': 1},
+    {'kind': 'sheet', 'cells': {'A1': None, 'B1': 7}, 'queries': ['ISBLANK(A1)', 'A1'],
+     'extras': [{'q': 0, 'at': 0, 'formula': 'B1', 'where': 'same'}, {'q': 1, 'at': 0, 'formula': 'B1+1', 'where': 'same'}],
+     'host': {'errors': 'drop', 'memo': False, 'target': 'same', 'walk': 'cells'}, 'seed': 2},
+    # a range walked row by row while a range sharing a corner label, written in another corner order, is
+    # evaluated elsewhere (nested on another parser, on the same parser, in another thread)
+    {'kind': 'sheet', 'cells': {'A1': 1, 'B1': 10, 'C1': 100, 'A2': 2, 'B2': 20, 'C2': 200, 'A3': 3, 'B3': 30, 'C3': 300},
+     'queries': ['SUM(A1:B3)'],
+     'extras': [{'q': 0, 'at': 2, 'formula': 'SUM(C1:B3)', 'where': 'other'}], 'sweep': True,
+     'host': {'errors': 'drop', 'memo': False, 'target': 'same', 'walk': 'rows'}, 'seed': 3},
+    {'kind': 'sheet', 'cells': {'A1': 1, 'B1': 10, 'C1': 100, 'A2': '=SUM(c1:B3)', 'B2': 20, 'C2': 200, 'A3': 3, 'B3': 30, 'C3': 300},
+     'queries': ['SUM(A1:B3)', 'SUM(b3:a1)'], 'extras': [],
+     'host': {'errors': 'drop', 'memo': False, 'target': 'alt', 'walk': 'cells'}, 'seed': 4},
+]
+
+
 # =========================================================================== the pool of formulas
 
 HAND = ['CB(1)+10', 'CB(CB(2)*3)+CB(4)', 'SUM(CB(1),CB(2),CB(3))*2', 'IF(CB(1)>0,CB("yes"),CB("no"))&"!"',
@@ -793,7 +1605,7 @@ def cases(rng, ctx):
     # ---- (b) bindings
     names = {'variable': ['rate', 'x_1', 'Foo', 'sum'], 'predefined': ['TRUE', 'NULL'], 'function': ['FOO', 'My.Fn', 'F_2'],
              'builtin': ['SUM', 'MAX'], 'callVariable': ['ghost', 'rate'], 'callCellValue': ['-'], 'callRangeValue': ['-'],
-             'callFunction': ['-'], 'once': ['-']}
+             'callFunction': ['-'], 'once': ['-'], 'journal': ['PI()*2', 'TRUE()', 'SUM(1,2)+PI()', 'IF(FALSE(),1,2)']}
     for what in BIND_WHAT:
         for name in names[what]:
             for val in [rng.randrange(2, 10 ** 6), 'v%d' % rng.randrange(100)]:
@@ -837,6 +1649,11 @@ def cases(rng, ctx):
         if rng.random() < 0.3:
             s = s[:rng.randrange(len(s))]
         out.append({'kind': 'sched', 'formulas': fs, 'schedule': s})
+    # ---- (d) the spreadsheet-style host
+    out += [json.loads(json.dumps(c)) for c in SHEET_CORPUS]
+    for i in range((N_SHEETS_THOROUGH if thorough else N_SHEETS_QUICK) * scale):
+        out.append(gen_sheet(rng, thorough, sweep=(thorough and i % 4 == 0) or (not thorough and i % 25 == 0),
+                             ref='formula' if i % 5 == 0 else 'sheet'))
     # ---- (c) free-running
     out.append({'kind': 'stress', 'threads': 4, 'n': 300 * (3 if thorough else 1), 'seed': rng.randrange(1 << 30),
                 'pool': [f for f in tpool if f]})
@@ -844,6 +1661,8 @@ def cases(rng, ctx):
 
 
 _impl_cache = {}
+N_SHEETS_QUICK = 200
+N_SHEETS_THOROUGH = 1500
 
 
 def _key(c):
@@ -873,6 +1692,8 @@ def _run(c):
             res = {'runs': runs, 'solo_outer': _brief(solo(c['outer'], 'A')), 'solo_inner': _brief(solo(c['inner'], 'B'))}
         elif kind == 'bind':
             res = run_bind(c)
+        elif kind == 'sheet':
+            res = run_sheet(c)
         elif kind == 'sched':
             res = run_sched(c['formulas'], c['schedule'])
         elif kind == 'stress':
@@ -881,7 +1702,7 @@ def _run(c):
             raise ValueError(kind)
     finally:
         _restore()
-    if kind == 'nest':
+    if kind in ('nest', 'sheet'):
         _impl_cache[k] = res      # computed in the request phase, consumed by impl()
     return res
 
@@ -943,6 +1764,11 @@ def request(c):
         if not parts:
             return None
         return 'interleave.batch ' + ' '.join(parts)
+    if kind == 'sheet':
+        # the Lean evaluator on every formula of the sheet, the cells and ranges it mentions bound to the values the
+        # bottom-up reference computed (the model has no host that evaluates inside a listener: inner outcomes are data)
+        res = _run(c)
+        return 'c04.batch ' + ' '.join(enc_str(f) for f in res['formulas']) + ' ' + res['env']
     return None
 
 
@@ -986,6 +1812,21 @@ def agree(c, impl_ans, model_ans):
             if not all(_model_matches(e, ops) for e, ops in zip(ans, r['ops'])):
                 return False
         return True
+    if c['kind'] == 'sheet':
+        fs = impl_ans['formulas']
+        if not isinstance(m, list) or len(m) != len(fs):
+            return False
+        for f, ans in zip(fs, m):
+            if not isinstance(ans, list) or len(ans) != 2:
+                return False
+            if f in impl_ans['risky']:
+                continue
+            # the model's record against what the formula gave inside the running sheet, and alone (floats: the model
+            # sums exactly, Python left to right - cancellation leaves an absolute error of a few ulps of the operands)
+            for rec in (impl_ans['observed'].get(f), impl_ans['alone'][f]):
+                if rec is not None and fx.record_matches(ans[1], rec, ulps=8, rel=1e-9) is False:
+                    return False
+        return True
     return True
 
 
@@ -1001,6 +1842,11 @@ def oracle(c, impl_ans):
         return None
     if kind == 'bind':
         return judge_bind(c, impl_ans)
+    if kind == 'sheet':
+        for r in impl_ans['runs']:
+            if r['msg']:
+                return '%s: %s' % (describe_sheet_run(c, r), r['msg'])
+        return None
     if kind == 'sched':
         for i, f in enumerate(c['formulas']):
             s = thread_solo(i, f)
@@ -1022,6 +1868,8 @@ def nontrivial(c, impl_ans):
     kind = c['kind']
     if kind == 'nest':
         return any(r['nframes'] >= 2 for r in impl_ans['runs'])
+    if kind == 'sheet':
+        return any(r['nested'] > 0 for r in impl_ans['runs'])
     if kind == 'sched':
         e = impl_ans['effective']
         return sum(1 for a, b in zip(e, e[1:]) if a != b) >= 2
@@ -1039,11 +1887,18 @@ def weight(c, impl_ans):
                 max(0, len([r for r in runs if 'ops' in r]) - 1))
     if c['kind'] == 'stress':
         return (impl_ans['evaluations'], 0, 0)
+    if c['kind'] == 'sheet':
+        runs = impl_ans['runs']
+        return (sum(r['nframes'] for r in runs) + impl_ans['ref_evals'], max(0, len([r for r in runs if r['nested'] > 0]) - 1),
+                max(0, len([f for f in impl_ans['formulas'] if f not in impl_ans['risky']]) - 1))
     return None
 
 
 def shrink(c, msg):
-    """a nest case covers many positions: keep the first failing plan only"""
+    """a nest case covers many positions: keep the first failing plan only; a sheet case many queries: keep the
+    failing one and the cells it can reach"""
+    if c['kind'] == 'sheet':
+        return shrink_sheet(c, msg)
     if c['kind'] != 'nest' or c.get('only') is not None:
         return c, msg
     res = _run(c)
@@ -1053,6 +1908,41 @@ def shrink(c, msg):
             c2 = dict(c)
             c2['only'] = r['plan']
             return c2, msg
+    return c, msg
+
+
+def shrink_sheet(c, msg):
+    try:
+        res = run_sheet(c)
+        bad = [r for r in res['runs'] if r['msg']]
+        if not bad:
+            return c, msg
+        r = bad[0]
+        c2 = dict(c)
+        c2['queries'] = [c['queries'][r['q']]]
+        c2['extras'] = []
+        if r['extra'] is not None:
+            ex = {'q': 0, 'at': r.get('fired') if r.get('fired') is not None else r['extra']['at'],
+                  'formula': r['extra']['formula'], 'where': r['extra']['where']}
+            c2['extras'] = [ex]
+            c2.pop('sweep', None)
+        # cells no formula of the reduced case can reach are dropped
+        reach, todo = set(), list(c2['queries']) + [e['formula'] for e in c2['extras']]
+        while todo:
+            for d in static_deps(todo.pop()):
+                if d not in reach:
+                    reach.add(d)
+                    if is_formula(c['cells'].get(d)):
+                        todo.append(c['cells'][d][1:])
+        c2['cells'] = {k: v for k, v in c['cells'].items() if k in reach}
+        res2 = run_sheet(c2)
+        bad2 = [x for x in res2['runs'] if x['msg']]
+        if bad2:
+            return c2, '%s: %s' % (describe_sheet_run(c2, bad2[0]), bad2[0]['msg'])
+    except Exception:
+        pass
+    finally:
+        _sheet_host[0] = None
     return c, msg
 
 
